@@ -75,7 +75,7 @@ def _callers_of(fn_name, files=None):
     return res
 
 
-def only_in(name, pattern, allowed, files=None, min_hits=1, strict=True):
+def only_in(name, pattern, allowed, files=None, min_hits=1, strict=True, vanished_is_violation=False):
     """Obligation: every occurrence of `pattern` lies in one of the functions `allowed`, or in a helper function
     whose every (textual) call site lies in an allowed function (one level of extraction is tolerated, so that
     moving the statement into a helper called from the same place is not an alarm; a function that is never
@@ -91,7 +91,9 @@ def only_in(name, pattern, allowed, files=None, min_hits=1, strict=True):
                 continue
         bad.append('%s:%d in fn %s: %s' % (f, ln, fn, txt))
     if len(occ) < min_hits and not bad:
-        return dict(name=name, kind='frame/only-in', ok=(False if strict else None), hits=len(occ), sample=[],
+        # fewer writers than when the frame was written is no evidence of a forbidden writer: undecided
+        # (unless the frame pins a struct field that the contracts are written over: then its disappearance is one)
+        return dict(name=name, kind='frame/only-in', ok=(False if vanished_is_violation else None), hits=len(occ), sample=[],
                     detail=['anchor lost: pattern occurs %d time(s), expected >= %d: %s' % (len(occ), min_hits, pattern)])
     return dict(name=name, kind='frame/only-in', ok=not bad, hits=len(occ), detail=bad,
                 sample=['%s:%d %s' % (f, ln, fn) for (f, ln, fn, t) in occ[:6]])
